@@ -31,37 +31,43 @@ def showHdr : Policy.Hdr → String
 def parseList {α} (f : String → Option α) (s : String) : Option (List α) :=
   if s == "-" then some [] else (s.splitOn ",").mapM f
 
+def policySetup (chain rcpts hdrs domt subt : String) : Option (Policy.Cfg × List Policy.Pol × Policy.Env) :=
+  match parseList parsePol chain, parseNatList rcpts, parseList parseHdr hdrs with
+  | some ps, some rv, some hs =>
+    let domTab : List (Nat × Option Nat) :=
+      if domt == "-" then [] else (domt.splitOn ";").filterMap fun kv =>
+        match kv.splitOn "=" with
+        | [k, v] => k.toNat?.map fun kk => (kk, v.toNat?)
+        | _ => none
+    let subTab : List ((Nat × Nat) × (Nat × Nat × Bool)) :=
+      if subt == "-" then [] else (subt.splitOn ";").filterMap fun kv =>
+        match kv.splitOn "=" with
+        | [k, v] =>
+          match k.splitOn ":", v.splitOn ":" with
+          | [r, x], [nv, ch, ne] =>
+            match r.toNat?, x.toNat?, nv.toNat?, ch.toNat? with
+            | some r, some x, some nv, some ch => some ((r, x), (nv, ch, ne == "1"))
+            | _, _, _, _ => none
+          | _, _ => none
+        | _ => none
+    let cfg : Policy.Cfg := {
+      domKey := fun v => match domTab.lookup v with | some r => r | none => none
+      subn := fun r v => match subTab.lookup (r, v) with | some x => x | none => (v, 0, true) }
+    let rc : List (Nat × Nat) := (List.range rv.length).zip rv
+    let e : Policy.Env := { eid := 0, sender := 1, body := 2, rcpts := rc, hdrs := hs }
+    some (cfg, ps, e)
+  | _, _, _ => none
+
 def policyOp (args : List String) : String :=
   match args with
   | ["run", chain, rcpts, hdrs, domt, subt] =>
-    match parseList parsePol chain, parseNatList rcpts, parseList parseHdr hdrs with
-    | some ps, some rv, some hs =>
-      let domTab : List (Nat × Option Nat) :=
-        if domt == "-" then [] else (domt.splitOn ";").filterMap fun kv =>
-          match kv.splitOn "=" with
-          | [k, v] => k.toNat?.map fun kk => (kk, v.toNat?)
-          | _ => none
-      let subTab : List ((Nat × Nat) × (Nat × Nat × Bool)) :=
-        if subt == "-" then [] else (subt.splitOn ";").filterMap fun kv =>
-          match kv.splitOn "=" with
-          | [k, v] =>
-            match k.splitOn ":", v.splitOn ":" with
-            | [r, x], [nv, ch, ne] =>
-              match r.toNat?, x.toNat?, nv.toNat?, ch.toNat? with
-              | some r, some x, some nv, some ch => some ((r, x), (nv, ch, ne == "1"))
-              | _, _, _, _ => none
-            | _, _ => none
-          | _ => none
-      let cfg : Policy.Cfg := {
-        domKey := fun v => match domTab.lookup v with | some r => r | none => none
-        subn := fun r v => match subTab.lookup (r, v) with | some x => x | none => (v, 0, true) }
-      let rc : List (Nat × Nat) := (List.range rv.length).zip rv
-      let e : Policy.Env := { eid := 0, sender := 1, body := 2, rcpts := rc, hdrs := hs }
+    match policySetup chain rcpts hdrs domt subt with
+    | some (cfg, ps, e) =>
       let out := Policy.runPolicies cfg ps e
       "|".intercalate (out.map fun o =>
         (if o.rcpts.isEmpty then "-" else ",".intercalate (o.rcpts.map fun (s, v) => s!"{s}:{v}")) ++ "/" ++
         (if o.hdrs.isEmpty then "-" else ",".intercalate (o.hdrs.map showHdr)) ++ s!"/{o.sender}/{o.body}")
-    | _, _, _ => "bad-op"
+    | none => "bad-op"
   | _ => "bad-op"
 
 end Slimta.Driver
